@@ -6,9 +6,11 @@ import (
 	"image"
 	"math"
 	"math/rand"
+	"os"
 	"strings"
 
 	"github.com/reactivego/ivg/decode"
+	"github.com/reactivego/ivg/raster"
 	"github.com/reactivego/ivg/render"
 )
 
@@ -47,9 +49,17 @@ type tracedRenderer struct {
 	n  int
 }
 
+// viaRasterLogger makes the next traced Renderers talk to their recording rasteriser through
+// raster.RasterizerLogger (a pass-through that must not change anything); stdout is discarded.
+var viaRasterLogger bool
+
 func newTracedRenderer(w *Writer, id string, rect image.Rectangle) *tracedRenderer {
 	t := &tracedRenderer{rd: &render.Renderer{}, z: &RecRaster{}, w: w}
-	t.rd.SetRasterizer(t.z, rect)
+	if viaRasterLogger {
+		t.rd.SetRasterizer(&raster.RasterizerLogger{Rasterizer: t.z}, rect)
+	} else {
+		t.rd.SetRasterizer(t.z, rect)
+	}
 	w.Emit(rendSrc{Ev: "rsrc", ID: id, Rect: [4]int{rect.Min.X, rect.Min.Y, rect.Max.X, rect.Max.Y}})
 	return t
 }
@@ -121,6 +131,11 @@ func driveRend(args []string) error {
 	}
 	stats := map[string]int{}
 	cfgs := latticeCfgs()
+	stdout := os.Stdout
+	if dn, err := os.OpenFile(os.DevNull, os.O_WRONLY, 0); err == nil {
+		os.Stdout = dn
+	}
+	defer func() { os.Stdout = stdout }()
 	runProg := func(t *tracedRenderer, prog []Call) {
 		for _, c := range prog {
 			switch c.Op {
@@ -142,6 +157,7 @@ func driveRend(args []string) error {
 			rng := newRand(201)
 			for i := 0; i < *n; i++ {
 				cfg := cfgs[i%len(cfgs)]
+				viaRasterLogger = i%5 == 4
 				o := &progOpts{maxPaths: 3, maxRun: 4, lattice: true, arcs: fam == "arcs" || i%4 == 0}
 				prog := genProgram(rng, o)
 				prog[0] = resetCall(cfg.vb, defaultPal())
@@ -150,7 +166,11 @@ func driveRend(args []string) error {
 				runProg(t, prog)
 				stats[fam+".programs"]++
 				stats[fam+".calls"] += t.n
+				if viaRasterLogger {
+					stats[fam+".via_raster_logger"]++
+				}
 			}
+			viaRasterLogger = false
 			if fam == "geometry" {
 				// all ordered pairs of verbs (smooth-curve memory across kinds), in two configurations
 				for ci, cfg := range []rendCfg{cfgs[0], cfgs[7]} {
@@ -260,6 +280,7 @@ func driveRend(args []string) error {
 	if err != nil {
 		return err
 	}
+	os.Stdout = stdout
 	summary(map[string]interface{}{"events": ev, "stats": stats})
 	return nil
 }
